@@ -1,4 +1,5 @@
 use crate::DbError;
+use crate::DbErrorType;
 use crate::StorageData;
 use crate::collections::bit_set::BitSet;
 use crate::graph::GraphData;
@@ -109,10 +110,14 @@ where
     }
 
     fn expand(&mut self, index: GraphIndex) -> Result<(), DbError> {
-        let node = self
-            .graph
-            .node(self.storage, index)
-            .expect("unexpected invalid node index");
+        let node = self.graph.node(self.storage, index).ok_or_else(|| {
+            DbError::graph(
+                DbErrorType::InvalidIndex,
+                format!("'{}' is invalid index", index.0),
+            )
+        })?;
+        self.visited.set(index.as_u64());
+
         for edge in node.edge_iter_from() {
             self.expand_edge(self.current_path.clone(), edge.index(), edge.index_to())?;
         }
@@ -138,7 +143,6 @@ where
             if index.0 == self.destination.0 {
                 std::mem::swap(&mut self.result, &mut self.current_path.elements);
             } else {
-                self.visited.set(index.as_u64());
                 self.expand(index)?;
             }
         }
